@@ -147,6 +147,10 @@ impl<E: OnEvictCallback + Clone, S: BuildHasher + Clone> Subject for LruSubj<E, 
             }
             25 => {
                 let c2 = c.clone();
+                // the clone answers every accessor like the original at this moment
+                if (c2.cap(), c2.len(), c2.is_empty()) != (c.cap(), c.len(), c.is_empty()) {
+                    return vec![-7];
+                }
                 // the original is dropped here: exercise independence of the clone
                 let old = std::mem::replace(c, c2);
                 let n = old.len() as u64;
